@@ -21,7 +21,9 @@ RULE = ('distinct protocol lines (table, condition) on which the implementation 
 TRUSTED = ['correspondence harness (pv.engine, pv.proto), generators and reference predicate of pv.props.c06',
            'Lean driver parser/printer (PygModel/Basic.lean, TableDriver.lean, FilterDriver.lean)']
 ASSUMPTIONS = ['the theorems hold for ANY regex semantics String -> Bool; the driver instantiates it with RePat.search (literal characters, ".", "^", "$", re.I) '
-               '- that this is what re.search does is sampled; other regex syntax is checked by the laws only (python re is the reference there)',
+               '- that this is what re.search does is sampled; other regex syntax is checked by the laws only (python re is the reference there); re.I is modelled for ASCII '
+               'letters only (python also folds U+212A / U+017F / U+0130): patterns and cells of the generator are ASCII, without newline',
+               'a column key that is not a string (float / None / datetime) is NAMED U+0000 + its wire atom in the model; that the code treats it like any dict key is sampled',
                'membership in a list of admissible values is BY VALUE (python ==, NaN the same value as NaN whichever object holds it): Cell.valEq',
                'the NaN condition is true of NaN cells only; +-inf are ordinary float values',
                'callables are drawn from a fixed menu implemented on both sides',
